@@ -136,11 +136,21 @@ def powI (x y : Int) : Int := x ^ y.toNat
 
 /-! ## Shape-only operators -/
 
+/-- Resolve the (at most one) `-1` of an already zero-resolved target so that the element count is `n`. -/
+def reshapeResolve (n : Nat) (dims : List Int) : R (List Nat) :=
+  if (dims.filter (· == -1)).length > 1 then fail
+  else
+    let known := prod ((dims.filter (· != -1)).map Int.toNat)
+    if dims.contains (-1) then
+      if known == 0 then ambig
+      else if n % known != 0 then fail
+      else pure (dims.map (fun d => if d == -1 then n / known else d.toNat))
+    else
+      if known == n then pure (dims.map Int.toNat) else fail
+
 /-- `Reshape`: `0` copies the input dimension (unless `allowzero`), one `-1` is inferred. -/
 def reshapeDims (inShape : List Nat) (spec : List Int) (allowzero : Bool) : R (List Nat) := do
-  let n := prod inShape
   guardR (spec.all (fun d => d ≥ -1))
-  guardR ((spec.filter (· == -1)).length ≤ 1)
   if allowzero && spec.contains 0 && spec.contains (-1) then fail
   -- resolve zeros
   let dims : List Int ← (List.range spec.length).mapM (fun k =>
@@ -148,13 +158,7 @@ def reshapeDims (inShape : List Nat) (spec : List Int) (allowzero : Bool) : R (L
     if d == 0 && !allowzero then
       (if k < inShape.length then pure (Int.ofNat (getN inShape k)) else fail)
     else pure d)
-  let known := prod ((dims.filter (· != -1)).map Int.toNat)
-  if dims.contains (-1) then
-    if known == 0 then ambig
-    else if n % known != 0 then fail
-    else pure (dims.map (fun d => if d == -1 then n / known else d.toNat))
-  else
-    if known == n then pure (dims.map Int.toNat) else fail
+  reshapeResolve (prod inShape) dims
 
 def reshape (x : Tensor) (spec : List Int) (allowzero : Bool) : R Tensor := do
   let s ← reshapeDims x.shape spec allowzero
